@@ -283,8 +283,14 @@ def _active_matchers(mod, findings_active):
     return out
 
 
+def _silence_stdout():
+    """Worker processes: the code under test prints solver iterations to stdout."""
+    sys.stdout = open(os.devnull, "w")
+
+
 def _run_hyp_shard(prop, subname, shard, n, seed_int, findings_active, deadline_ts):
     from hypothesis import given, seed, Phase
+    _silence_stdout()
     mod = load_module(prop)
     sub = _subchecks(mod)[subname]
     res = _new_result()
@@ -346,6 +352,7 @@ def _run_hyp_shard(prop, subname, shard, n, seed_int, findings_active, deadline_
 
 
 def _run_enum_chunk(prop, subname, chunk, findings_active, deadline_ts):
+    _silence_stdout()
     mod = load_module(prop)
     sub = _subchecks(mod)[subname]
     res = _new_result()
@@ -384,6 +391,7 @@ def _run_enum_chunk(prop, subname, chunk, findings_active, deadline_ts):
 def _shrink_worker(prop, subname, bucket, n, seed_int, findings_active, budget_s, first_case):
     """Re-find `bucket` under the same seed with the shrink phase on."""
     from hypothesis import given, seed, Phase
+    _silence_stdout()
     mod = load_module(prop)
     sub = _subchecks(mod)[subname]
     matchers = _active_matchers(mod, findings_active)
@@ -466,8 +474,10 @@ def main(argv=None):
     ap.add_argument("--no-evidence", action="store_true")
     args = ap.parse_args(argv)
 
-    if os.environ.get("PYTHONHASHSEED") != "0":
-        os.environ["PYTHONHASHSEED"] = "0"
+    # one BLAS thread per shard process (16 shards x multi-threaded BLAS is far slower), fixed hash seed
+    wanted = {"PYTHONHASHSEED": "0", "OMP_NUM_THREADS": "1", "OPENBLAS_NUM_THREADS": "1", "MKL_NUM_THREADS": "1"}
+    if any(os.environ.get(k) != v for k, v in wanted.items()):
+        os.environ.update(wanted)
         os.execv(sys.executable, [sys.executable, "-W", "ignore"] + sys.argv)
 
     prop = args.property.upper()
